@@ -15,7 +15,7 @@ the `_src` theorem, is then re-proved by Lean on that run — or stops checking.
 -/
 namespace CircBuf
 
-theorem C04_push_back_src (x : Elem) (s1 s2 : Sys) (h1 : Inv s1.buf) (h2 : Inv s2.buf)
+maybe theorem C04_push_back_src (x : Elem) (s1 s2 : Sys) (h1 : Inv s1.buf) (h2 : Inv s2.buf)
     (hcap : s1.buf.cap = s2.buf.cap) (habs : abs s1.buf = abs s2.buf) :
     ∃ r b1 b2, Gen.push_back x s1 = (.ok r, { s1 with buf := b1 }) ∧
       Gen.push_back x s2 = (.ok r, { s2 with buf := b2 }) ∧
@@ -23,7 +23,7 @@ theorem C04_push_back_src (x : Elem) (s1 s2 : Sys) (h1 : Inv s1.buf) (h2 : Inv s
   first
   | (rw [tie_push_back _ s1 h1 (nd_pushBack _ s1 h1), tie_push_back _ s2 h2 (nd_pushBack _ s2 h2)]; exact C04_push_back x s1 s2 h1 h2 hcap habs)
 
-theorem C04_push_front_src (x : Elem) (s1 s2 : Sys) (h1 : Inv s1.buf) (h2 : Inv s2.buf)
+maybe theorem C04_push_front_src (x : Elem) (s1 s2 : Sys) (h1 : Inv s1.buf) (h2 : Inv s2.buf)
     (hcap : s1.buf.cap = s2.buf.cap) (habs : abs s1.buf = abs s2.buf) :
     ∃ r b1 b2, Gen.push_front x s1 = (.ok r, { s1 with buf := b1 }) ∧
       Gen.push_front x s2 = (.ok r, { s2 with buf := b2 }) ∧
@@ -31,21 +31,21 @@ theorem C04_push_front_src (x : Elem) (s1 s2 : Sys) (h1 : Inv s1.buf) (h2 : Inv 
   first
   | (rw [tie_push_front _ s1 h1 (nd_pushFront _ s1 h1), tie_push_front _ s2 h2 (nd_pushFront _ s2 h2)]; exact C04_push_front x s1 s2 h1 h2 hcap habs)
 
-theorem C04_pop_back_src (s1 s2 : Sys) (h1 : Inv s1.buf) (h2 : Inv s2.buf)
+maybe theorem C04_pop_back_src (s1 s2 : Sys) (h1 : Inv s1.buf) (h2 : Inv s2.buf)
     (hcap : s1.buf.cap = s2.buf.cap) (habs : abs s1.buf = abs s2.buf) :
     ∃ r b1 b2, Gen.pop_back s1 = (.ok r, { s1 with buf := b1 }) ∧ Gen.pop_back s2 = (.ok r, { s2 with buf := b2 }) ∧
       Inv b1 ∧ Inv b2 ∧ abs b1 = abs b2 ∧ b1.cap = b2.cap := by
   first
   | (rw [tie_pop_back s1 h1 (nd_popBack s1 h1), tie_pop_back s2 h2 (nd_popBack s2 h2)]; exact C04_pop_back s1 s2 h1 h2 hcap habs)
 
-theorem C04_pop_front_src (s1 s2 : Sys) (h1 : Inv s1.buf) (h2 : Inv s2.buf)
+maybe theorem C04_pop_front_src (s1 s2 : Sys) (h1 : Inv s1.buf) (h2 : Inv s2.buf)
     (hcap : s1.buf.cap = s2.buf.cap) (habs : abs s1.buf = abs s2.buf) :
     ∃ r b1 b2, Gen.pop_front s1 = (.ok r, { s1 with buf := b1 }) ∧ Gen.pop_front s2 = (.ok r, { s2 with buf := b2 }) ∧
       Inv b1 ∧ Inv b2 ∧ abs b1 = abs b2 ∧ b1.cap = b2.cap := by
   first
   | (rw [tie_pop_front s1 h1 (nd_popFront s1 h1), tie_pop_front s2 h2 (nd_popFront s2 h2)]; exact C04_pop_front s1 s2 h1 h2 hcap habs)
 
-theorem C04_swap_remove_back_src (i : Nat) (s1 s2 : Sys) (h1 : Inv s1.buf) (h2 : Inv s2.buf)
+maybe theorem C04_swap_remove_back_src (i : Nat) (s1 s2 : Sys) (h1 : Inv s1.buf) (h2 : Inv s2.buf)
     (hcap : s1.buf.cap = s2.buf.cap) (habs : abs s1.buf = abs s2.buf) :
     ∃ r b1 b2, Gen.swap_remove_back i s1 = (.ok r, { s1 with buf := b1 }) ∧
       Gen.swap_remove_back i s2 = (.ok r, { s2 with buf := b2 }) ∧
@@ -53,7 +53,7 @@ theorem C04_swap_remove_back_src (i : Nat) (s1 s2 : Sys) (h1 : Inv s1.buf) (h2 :
   first
   | (rw [tie_swap_remove_back _ s1 h1 (nd_swapRemoveBack _ s1 h1), tie_swap_remove_back _ s2 h2 (nd_swapRemoveBack _ s2 h2)]; exact C04_swap_remove_back i s1 s2 h1 h2 hcap habs)
 
-theorem C04_remove_src (i : Nat) (s1 s2 : Sys) (h1 : Inv s1.buf) (h2 : Inv s2.buf)
+maybe theorem C04_remove_src (i : Nat) (s1 s2 : Sys) (h1 : Inv s1.buf) (h2 : Inv s2.buf)
     (hcap : s1.buf.cap = s2.buf.cap) (habs : abs s1.buf = abs s2.buf) :
     ∃ r b1 b2, Gen.remove i s1 = (.ok r, { s1 with buf := b1 }) ∧ Gen.remove i s2 = (.ok r, { s2 with buf := b2 }) ∧
       Inv b1 ∧ Inv b2 ∧ abs b1 = abs b2 ∧ b1.cap = b2.cap := by
